@@ -573,6 +573,22 @@ func runC04(c *h.Ctx) {
 		}
 		c.Sample("near-miss", map[string]string{"input": "\"\\x4\x11\"", "rule": "escape"})
 	}
+	// near-miss by construction: paths in which one ASCII character is written as
+	// its non-shortest two-byte form (C0/C1 lead byte)
+	{
+		k := 0
+		for _, txt := range []string{`$.a`, `1 / 2`, `$`, `"ab"`, `$ ? (@.a == 1)`, `$[0 to 1]`, `$.a /* c */ .b`, `strict $.a`, `$.a like_regex "x"`} {
+			for pos := 0; pos < len(txt); pos++ {
+				k++
+				if !c.Mine(k) {
+					continue
+				}
+				ch := txt[pos]
+				over := string([]byte{0xc0 | ch>>6, 0x80 | ch&0x3f})
+				check(txt[:pos]+over+txt[pos+1:], "invalid-utf8")
+			}
+		}
+	}
 	// near-miss by construction: a numeric literal with an identifier glued
 	// to it is malformed - also when the identifier begins with an escape
 	// (which may spell a keyword: to, starts, like_regex, is)
@@ -671,6 +687,14 @@ func runC04(c *h.Ctx) {
 			// continuation or an unfinished sequence, wherever it lands)
 			for _, b := range []string{"\x80", "\xbf", "\xc0", "\xc2", "\xe0", "\xf0", "\xf8", "\x81"} {
 				if (k+i)%4 == 0 {
+					check(txt[:k]+b+txt[k:], "invalid-utf8")
+				}
+			}
+			// ill-formed sequences of several bytes: non-shortest forms of ASCII
+			// characters (which would mean something to the lexer), a surrogate,
+			// a code point beyond U+10FFFF - at a character boundary
+			if (k+i)%3 == 0 && utf8.RuneStart(append([]byte(txt), 0)[k]) {
+				for _, b := range []string{"\xc0\xaf", "\xc1\xa1", "\xc0\xa4", "\xc0\xa2", "\xc0\xa0", "\xe0\x80\xaf", "\xf0\x80\x80\xa4", "\xed\xa0\x80", "\xf4\x90\x80\x80", "\xc1\xbf"} {
 					check(txt[:k]+b+txt[k:], "invalid-utf8")
 				}
 			}
